@@ -13,15 +13,15 @@ THEOREMS = [
     # 2a lexer
     "lex_lossless", "lex_tokens_match_rules", "lex_error_is_real", "lex_rejects_unrecognised",
     # 2b recogniser
-    "parse_sound", "accepts_sound",
+    "parse_sound", "accepts_sound", "accepts_iff_partial",
     # 1a listener
     "listener_no_panic", "listener_builds_query", "listener_no_panic_on_trees",
     # 1b typing, 1c evaluation, everything together
     "transform_no_panic", "eval_no_panic", "pipeline_total",
     # 1d cursors
     "tree_cursor_no_panic", "tree_cursor_enumerates",
-    # 1e bolt-backed Symbols (partial: known finding composite_set_symbol_without_cursor)
-    "bolt_symbols_no_panic_partial",
+    # 1e bolt-backed Symbols
+    "bolt_symbols_no_panic",
 ]
 TABLE_OBLIGATIONS = [
     "class_table_is_expected (Generated/C10Classes.lean: interfaces implemented by every ast node class, from ast/*.go)",
@@ -146,17 +146,7 @@ def compare(case, impl, model, spec, estage):
     return prop, corr
 
 
-def m_composite_set_symbol(case, info):
-    """the minimised failing case is a query over the bolt stores that panics and reads a dotted set
-    symbol (first segment = the fk-set `kids`), e.g. count(kids.ss) = null"""
-    f = case.split(" ")
-    if f[0] != "B" or not (info.get("impl") or "").startswith("panic"):
-        return False
-    import re
-    return re.search(r"\bkids\.[A-Za-z]", text_of(case)) is not None
-
-
-MATCHERS = {"composite_set_symbol_without_cursor": m_composite_set_symbol}
+MATCHERS = {}
 
 RULE = ("streams: grammar-derived sentences with type-undirected operands; 1-2 token-level mutations of them "
         "(delete/duplicate/swap/replace/insert, unrecognised characters); all token sequences of length <=3 (quick) / <=4 "
